@@ -296,7 +296,13 @@ class _EvaluatorCompiler:
 
     def visit_in_op_binary_op(self, operator, eval_left, eval_right, clause):
         return self._straight_evaluate(
-            lambda a, b: a in b if a is not _NO_OBJECT else None,
+            # SQL three-valued logic: "x IN (.., NULL)" is NULL, not false,
+            # when x is not among the other values
+            lambda a, b: (
+                None
+                if a is _NO_OBJECT
+                else True if a in b else None if None in b else False
+            ),
             eval_left,
             eval_right,
             clause,
@@ -306,7 +312,11 @@ class _EvaluatorCompiler:
         self, operator, eval_left, eval_right, clause
     ):
         return self._straight_evaluate(
-            lambda a, b: a not in b if a is not _NO_OBJECT else None,
+            lambda a, b: (
+                None
+                if a is _NO_OBJECT
+                else False if a in b else None if None in b else True
+            ),
             eval_left,
             eval_right,
             clause,
